@@ -458,9 +458,9 @@ def register_numpy():
                 return normalize_object(x)
         else:
             try:
-                data = hash_buffer_hex(x.ravel(order="K").view("i1"))
+                data = hash_buffer_hex(np.ascontiguousarray(x).ravel().view("i1"))
             except (BufferError, AttributeError, ValueError):
-                data = hash_buffer_hex(x.copy().ravel(order="K").view("i1"))
+                data = hash_buffer_hex(x.copy(order="C").ravel().view("i1"))
         return (data, x.dtype, x.shape)
 
     @normalize_token.register(np.memmap)
